@@ -274,8 +274,13 @@ func (cf *CloudflarePublisher) getZoneData(ctx context.Context, zone string, dat
 		if !result.Success || len(result.Errors) > 0 {
 			return result.Errors
 		}
-		if len(result.Result) > 0 {
-			zoneID = result.Result[0].ID
+		// The name filter is the API's to interpret (an empty one lists every
+		// zone): the zone is the one that carries the name that was asked for.
+		for _, z := range result.Result {
+			if strings.EqualFold(z.Name, zone) {
+				zoneID = z.ID
+				break
+			}
 		}
 		cf.zoneIDs[zone] = zoneID
 	}
